@@ -152,6 +152,12 @@ def fit(cfg, steps, workdir, callbacks_extra=(), ckpt_path=None, log=None):
     with warnings.catch_warnings():
         warnings.simplefilter("ignore")
         trainer.fit(solver, ckpt_path=ckpt_path)
+        if cfg.get("refit"):          # the same Solver object fitted again by a fresh Trainer
+            log.append({"e": "refit"})
+            trainer = pl.Trainer(max_steps=steps, logger=False, enable_checkpointing=False, enable_progress_bar=False,
+                                 enable_model_summary=False, num_sanity_val_steps=0, accelerator="cpu", devices=1,
+                                 default_root_dir=workdir, callbacks=[Logger(objs, log)], **kw)
+            trainer.fit(solver)
     return log, objs, trainer, solver
 
 
@@ -159,7 +165,7 @@ def run_one(s):
     cfg = dict(s["cfg"], named=(s["tid"] % 2 == 1))
     wd = tempfile.mkdtemp(prefix="c07-", dir=os.environ.get("VERIF_TMP", None))
     try:
-        r = watched(lambda: fit(cfg, cfg["N"], wd), 60)
+        r = watched(lambda: fit(cfg, cfg["N"], wd), 90)
         if r[0] != "ok":
             return {"exc": r[1] if len(r) > 1 else "hang", "msg": (r[2] if len(r) > 2 else "")[:300], "log": []}
         log = r[1][0]
